@@ -116,7 +116,8 @@ IsoGrow(M, r1, r2) ==
   IN IF nxt = M THEN M ELSE IsoGrow(nxt, r1, r2)
 IsBijection(S) == \A p, q \in S : (p[1] = q[1]) <=> (p[2] = q[2])
 RegIso(r1, r2, seeds) ==
-  IF ~(WellFormed(r1) /\ WellFormed(r2)) THEN TRUE        \* ill-formedness is C01's finding
+  IF ~(WellFormed(r1) /\ WellFormed(r2)) THEN Len(r1) = Len(r2)      \* ill-formedness is C01's finding; two registries of
+                                                                       \* one root set still have the same number of entries
   ELSE IF \E p \in seeds : p[1] >= Len(r1) \/ p[2] >= Len(r2) THEN FALSE      \* a handed-out id does not resolve
   ELSE LET M == IsoGrow(seeds, r1, r2)
            f == [a \in {x[1] : x \in M} |-> CHOOSE b \in {x[2] : x \in M} : <<a, b>> \in M] IN
